@@ -462,6 +462,7 @@ class Facts(object):
         self.decls = {}          # uid -> decl dict
         self.classes = defaultdict(list)   # pname -> [class dicts]
         self.by_p = defaultdict(list)      # pname -> [Fn]
+        self.templates = {}                # (pname, file, line) -> namespace-scope function template record (nspec = instantiated bodies)
         self.units = []
         self.errors = []
         self._overriders = None
@@ -489,6 +490,11 @@ class Facts(object):
                     if d['q'] not in self._classq:
                         self._classq[d['q']] = d
                         self.classes[d['p']].append(d)
+                elif t == 'tmpl':
+                    k = (d['p'], d['file'], d['ln'])
+                    cur = self.templates.get(k)
+                    if cur is None or d['nspec'] > cur['nspec']:
+                        self.templates[k] = d
                 elif t == 'error':
                     self.errors.append((unit, d.get('msg')))
                 elif t == 'end':
